@@ -49,7 +49,9 @@ def flow_values(kind, n, r):
     """The n values the source of run number r produces (distinct between runs for n >= 1)."""
     if kind == "ints":
         return [100 * (r + 1) + i for i in range(n)]
-    if kind == "ctx":
+    if kind in ("ctx", "shared"):
+        # "shared": the same values, but the real source hands out ONE context dictionary that it
+        # updates in place for every value (what is stored and replayed is each value as it passed)
         return [(100 * (r + 1) + i, {"run": r, "i": i, "nested": {"k": [i]}}) for i in range(n)]
     if kind == "falsy":
         return [FALSY_POOL[(3 * r + i) % len(FALSY_POOL)] for i in range(n)]
